@@ -22,13 +22,19 @@ WSpec == WInit /\ [][WNext]_wvars
 Final == [ptr |-> ptr, builds |-> builds, scanid |-> scanid, reglen |-> reglen, pool |-> pool, sdoc |-> sdoc]
 Emit == AllDone => PrintT(ToJson([p |-> prog0, h |-> hist, f |-> Final]))
 
-\* program assignments replayed: two (three) threads, calls that meet at the same mutex or the same immutable object
+\* program assignments replayed: calls that meet at the same mutex or the same immutable object
 SameGuard(a, b) == MutexOf(a) = MutexOf(b)
-Pairs == {f \in [Threads -> SeqsUpTo(AllOps, 1)] :
-             \A t, u \in Threads : (f[t] # <<>> /\ f[u] # <<>>) => SameGuard(f[t][1], f[u][1])}
-\* two calls per thread at the read-modify-write sites, same guard
-Deep == {f \in [Threads -> SeqsUpTo(CoreOps, 2)] :
-             /\ \A t \in Threads : Len(f[t]) = 2
-             /\ \A t, u \in Threads : \A i, j \in 1..2 : SameGuard(f[t][i], f[u][j])}
-WChoices == Pairs \cup Deep
+\* every thread at most one call (any op)
+Singles == {f \in [Threads -> SeqsUpTo(AllOps, 1)] :
+               \A t, u \in Threads : (f[t] # <<>> /\ f[u] # <<>>) => SameGuard(f[t][1], f[u][1])}
+\* thread 1 two calls, the others one call, at the read-modify-write sites
+Deep21 == {f \in [Threads -> SeqsUpTo(CoreOps, 2)] :
+              /\ Len(f[1]) = 2 /\ \A t \in Threads \ {1} : Len(f[t]) = 1
+              /\ \A t, u \in Threads : \A i \in 1..Len(f[t]), j \in 1..Len(f[u]) : SameGuard(f[t][i], f[u][j])}
+\* two calls per thread
+Deep22 == {f \in [Threads -> SeqsUpTo(CoreOps, 2)] :
+              /\ \A t \in Threads : Len(f[t]) = 2
+              /\ \A t, u \in Threads : \A i, j \in 1..2 : SameGuard(f[t][i], f[u][j])}
+WQuick == Deep21
+WThorough == Deep21 \cup Deep22
 =============================================================================
